@@ -14,6 +14,6 @@ CONSTANTS
   McKinds = {}
 INIT TInit
 NEXT TNext
-INVARIANTS BackedDs BackedIprpc BackedSub
+INVARIANTS ProjectionSound BackedDs BackedIprpc BackedSub
 POSTCONDITION Post
 CHECK_DEADLOCK FALSE
